@@ -66,7 +66,7 @@ Definition e_parse (a : list Z) : list Z :=
                           let '(funset, r11) := dec_cells (Z.to_nat nfs) r10 in
                           let '(formula, _) := dec_text r11 in
                           let h := {| h_vars := vars; h_funs := funs; h_cells := cells; h_ranges := rng; h_registry := registry_names;
-                                      h_varset := varset; h_funset := funset |} in
+                                      h_varset := varset; h_funset := funset; h_oracle := fun _ _ => None |} in
                           let '(rec, tr) := parse_formula h formula in
                           enc_precord rec ++ Z.of_nat (length tr) :: flat_map enc_event tr
                       | [] => [-1]
